@@ -164,7 +164,10 @@ class C01(core.PropBase):
                     if "input-mutated" not in io[1]:
                         continue
                 if self.side == "complete" and not (io[1].startswith("reject") and mo[1] == "accept"):
-                    continue
+                    # "starting from such a document the verdict flips to rejection when ... a rule is broken":
+                    # a mutant of a well-formed document that breaks a rule and is still accepted is C02's too
+                    if not (m["case"].get("ops") and io[1].startswith("accept") and mo[1] == "reject"):
+                        continue
             if io[0] == "verdict" and io[1].startswith("raise") and self.side == "complete":
                 continue     # totality is C04's business; C01 reports it too (an escaped exception is not a rejection)
             keep.append(m)
